@@ -1,19 +1,289 @@
 //! Properties that need more than the (text, cfg) -> text tree driver.
 
 use crate::engine::{Acc, RunMeta, Violation};
-use crate::workload::Tier;
+use crate::fmtx::{self, Cfg};
+use crate::pools::{self, ListPool};
+use crate::report;
+use crate::util::{self, Rng};
+use crate::workload::{self, CfgRule, Part, Std, Tier};
+use crate::{corpus, gen, p_import, p_indent, p_off, p_perf, p_pure, p_range, p_total};
 
-pub fn violated(_v: &Violation, _new_input: &str) -> Option<bool> {
-    None
+pub fn violated(v: &Violation, new_input: &str) -> Option<bool> {
+    match v.property.as_str() {
+        "C05" => {
+            if v.oracle == "depth-ladder" {
+                p_total::ladder_violated(&v.extra, v.cfg?)
+            } else {
+                p_total::violated(new_input, v.cfg?)
+            }
+        }
+        "C07" => p_off::violated(new_input, v.cfg?),
+        "C12" => p_indent::violated(new_input),
+        "C13" => p_range::violated(new_input, v.cfg?, &v.extra),
+        "C18" => p_perf::violated(new_input, v.cfg?, &v.extra),
+        "C19" => p_import::violated(new_input, v.cfg?),
+        "C02" => crate::p_world::violated(new_input, v.cfg?),
+        "C14" | "C15" | "C16" => crate::p_cli::violated(v, new_input),
+        _ => None,
+    }
 }
 
-pub fn run(prop: &str, _tier: Tier) -> (RunMeta, Acc) {
-    panic!("property {} not implemented", prop)
+fn gens(parts: &mut Vec<Part>, q: usize, t: usize) {
+    for g in gen::all_gen_pools() {
+        parts.push(Part { pool: g, quick: q, thorough: t, cfg: CfgRule::Fixed(vec![]) });
+    }
 }
 
-pub fn check(prop: &str, _tier: Tier) -> i32 {
-    println!("INCONCLUSIVE property={} reason=not-implemented", prop);
-    2
+fn fixed() -> CfgRule {
+    CfgRule::Fixed(vec![])
+}
+
+pub fn run(prop: &str, tier: Tier) -> (RunMeta, Acc) {
+    let seed = util::seed_from_env();
+    match prop {
+        "C12" => {
+            let std = Std::load();
+            let mut meta = RunMeta::new(
+                prop,
+                tier.name(),
+                "exploration",
+                "every input is formatted with tab_spaces = 1..8 at width 2^40; the eight outputs are compared line by line (equal remainders, leading spaces = level × unit, same set of source-indented lines); one evaluation = one format call; distinct = input hash; non-trivial = the output has at least one non-exempt line with indentation level ≥ 1",
+            );
+            let sb = std.small_bases.clone();
+            let mut parts = vec![
+                Part::new(std.base_list(), usize::MAX, usize::MAX, fixed()),
+                Part::new(pools::ws_pool(sb.clone()), 4000, 80_000, fixed()),
+                Part::new(pools::comment_pool(sb.clone()), 4000, 80_000, fixed()),
+                Part::new(pools::paren_pool(sb.clone()), 1500, 33_196, fixed()),
+                Part::new(pools::splice_pool(sb.clone(), std.frags.clone()), 2000, 72_678, fixed()),
+                Part::new(p_off::off_pool(sb.clone()), 1500, 40_000, fixed()),
+            ];
+            gens(&mut parts, 800, 8000);
+            let (mut acc, pm) = workload::run_parts(&parts, tier, seed, |_, case, _, acc| p_indent::run_case(case, acc));
+            meta.pools = pm;
+            meta.assumptions = vec!["lines are LF-delimited; indentation = leading U+0020 characters".into(), "exempt lines are recomputed from the parse tree of each output (block comments, strings, raw, nodes after @typstyle off)".into()];
+            run_fixed_repros(prop, &mut acc);
+            (meta, acc)
+        }
+        "C07" => {
+            let std = Std::load();
+            let mut meta = RunMeta::new(
+                prop,
+                tier.name(),
+                "exploration",
+                "directive injection (block and line form of '@typstyle off') before every expression / code body / math node of snippets, adversarial inputs and small fixtures, payload uglified three ways, plus the corpus' own directives; k-th directive of the input is paired with the k-th of the output and the protected nodes' source texts are compared modulo end-of-line blanks; distinct = input hash; non-trivial = the same input with the directive spelled '@typstyle 0ff' formats differently (the directive actually protected something)",
+            );
+            let sb = std.small_bases.clone();
+            let cfgs: Vec<Cfg> = [0usize, 20, 40, 80, fmtx::W_INF]
+                .iter()
+                .flat_map(|&w| [1usize, 2, 4].iter().map(move |&t| Cfg::new(w, t, false)))
+                .collect();
+            let parts = vec![
+                Part::new(std.base_list(), usize::MAX, usize::MAX, CfgRule::Fixed(cfgs.clone())),
+                Part::new(p_off::off_pool(sb.clone()), 12_000, usize::MAX, CfgRule::Fixed(cfgs.clone())),
+            ];
+            let (mut acc, pm) = workload::run_parts(&parts, tier, seed, |part, case, _, acc| {
+                if let CfgRule::Fixed(c) = &part.cfg {
+                    p_off::run_case(case, c, acc)
+                }
+            });
+            meta.pools = pm;
+            meta.assumptions = vec!["scope = directive comment whose next sibling (skipping Space and '#') is an expression, a code body or a math body (DESIGN.md §8)".into()];
+            run_fixed_repros(prop, &mut acc);
+            (meta, acc)
+        }
+        "C19" => {
+            let std = Std::load();
+            let mut meta = RunMeta::new(
+                prop,
+                tier.name(),
+                "exploration",
+                "import generator (plain / renamed / dotted / parenthesised / multi-line / comments at item gaps / duplicate names / wildcard, embedded in markup, code blocks, closures) plus all corpus imports; each input formatted with reorder off and on at several widths, plus two permuted twins per eligible import; evaluation = one format call; distinct = input hash; non-trivial = some import without comment/duplicate actually changed its item order under reorder on",
+            );
+            let sb = std.small_bases.clone();
+            let cfgs = [(0usize, 2usize), (20, 2), (40, 4), (80, 2), (fmtx::W_INF, 2)];
+            let gi = pools::GenPool { name: "G-IMPORT".into(), n: gen::GEN_N, f: Box::new(gen::gen_import) };
+            let parts = vec![
+                Part::new(std.base_list(), usize::MAX, usize::MAX, fixed()),
+                Part::new(gi, 6000, gen::GEN_N, fixed()),
+                Part::new(pools::comment_pool(sb.clone()), 6000, 100_000, fixed()),
+                Part::new(pools::ws_pool(sb.clone()), 2000, 40_000, fixed()),
+            ];
+            let (mut acc, pm) = workload::run_parts(&parts, tier, seed, |_, case, _, acc| {
+                if !case.text.contains("import") {
+                    acc.inconclusive("no-import");
+                    return;
+                }
+                p_import::run_case(case, &cfgs, acc)
+            });
+            meta.pools = pm;
+            meta.assumptions = vec!["'contains comments' = a comment node anywhere below the ModuleImport node; 'sorted' = canonical under permutation of the source items, sort key not prescribed (DESIGN.md §8)".into()];
+            run_fixed_repros(prop, &mut acc);
+            (meta, acc)
+        }
+        "C13" => {
+            let std = Std::load();
+            let mut meta = RunMeta::new(
+                prop,
+                tier.name(),
+                "exploration",
+                "for every source ≤ 80 bytes ALL (start,end) pairs on character boundaries with start ≤ end ≤ len+3; for larger sources a seeded sample of pairs (incl. empty, whole document, past-the-end); well-formed and erroneous (havoc) sources; evaluation = one format_source_range call under catch_unwind; distinct = source hash; non-trivial = at least one request on that source returned text that was spliced and compared",
+            );
+            let sb = std.small_bases.clone();
+            let cfgs = vec![Cfg::new(80, 2, false), Cfg::new(0, 2, false), Cfg::new(40, 4, false)];
+            let hp = p_total::havoc_pool(std.snippet_bases.clone());
+            let parts = vec![
+                Part::new(std.base_list(), 700, usize::MAX, fixed()),
+                Part::new(pools::comment_pool(sb.clone()), 600, 20_000, fixed()),
+                Part::new(pools::uni_pool(sb.clone()), 300, 10_000, fixed()),
+                Part::new(pools::eol_pool(sb.clone()), 200, 6000, fixed()),
+                Part::new(hp, 600, 30_000, fixed()),
+                Part::new(ListPool { name: "corpus(hostile)".into(), cases: corpus::hostile() }, 300, usize::MAX, fixed()),
+            ];
+            let sampled = if tier == Tier::Quick { 60 } else { 300 };
+            let (mut acc, pm) = workload::run_parts(&parts, tier, seed, |_, case, rng, acc| {
+                if case.text.len() > 200_000 {
+                    acc.inconclusive("source-too-large");
+                    return;
+                }
+                let c = if case.text.len() <= 80 { &cfgs[..] } else { &cfgs[..1] };
+                p_range::run_case(case, 80, sampled, c, rng, acc)
+            });
+            meta.pools = pm;
+            meta.assumptions = vec!["equivalence of the spliced source uses the same normal form N as C01".into(), "requests with start > end or off character boundaries are outside the statement".into()];
+            run_fixed_repros(prop, &mut acc);
+            (meta, acc)
+        }
+        "C05" => {
+            let std = Std::load();
+            let mut meta = RunMeta::new(
+                prop,
+                tier.name(),
+                "exploration",
+                "hostile corpus, random UTF-8 over a Typst-significant alphabet (all newline/blank characters, BOM, NUL, arbitrary scalars), havoc-damaged and truncated corpus items, EOL mutants, degenerate tables, each under extreme configurations (max_width ∈ {0,1,2,7,40,80,2^20,2^40,usize::MAX/2}, tab_spaces ∈ 0..=64); plus depth ladders 1..8192 for 20 wrapper families in isolated worker processes (formatting must survive every depth that parsing alone survives); evaluation = one observed call; distinct = input hash; non-trivial = the input has syntax errors (refusal rule exercised) or the output differs from the input",
+            );
+            let sb = std.small_bases.clone();
+            let parts = vec![
+                Part::new(ListPool { name: "corpus(hostile)".into(), cases: corpus::hostile() }, usize::MAX, usize::MAX, fixed()),
+                Part::new(std.base_list(), usize::MAX, usize::MAX, fixed()),
+                Part::new(p_total::random_pool(), 30_000, 200_000, fixed()),
+                Part::new(p_total::havoc_pool(std.small_bases.clone()), 20_000, 200_000, fixed()),
+                Part::new(p_total::prefix_pool(std.snippet_bases.clone()), 10_000, usize::MAX, fixed()),
+                Part::new(pools::eol_pool(sb.clone()), 2000, 18_391, fixed()),
+                Part::new(pools::eolblank_pool(sb.clone()), 1000, 31_770, fixed()),
+                Part::new(pools::uni_pool(sb.clone()), 1000, 21_240, fixed()),
+                Part::new(pools::comment_pool(sb.clone()), 3000, 60_000, fixed()),
+                Part::new(pools::GenPool { name: "G-TABLE".into(), n: gen::GEN_N, f: Box::new(gen::gen_table) }, 2000, gen::GEN_N, fixed()),
+                Part::new(pools::GenPool { name: "G-NEST".into(), n: gen::GEN_N, f: Box::new(gen::gen_nest) }, 2000, gen::GEN_N, fixed()),
+            ];
+            let ncfg = if tier == Tier::Quick { 3 } else { 8 };
+            let (mut acc, pm) = workload::run_parts(&parts, tier, seed, |_, case, rng, acc| {
+                if case.text.len() > 300_000 {
+                    acc.inconclusive("input-too-large");
+                    return;
+                }
+                let cfgs = p_total::cfgs_for(rng, ncfg);
+                p_total::run_case(case, &cfgs, acc)
+            });
+            meta.pools = pm;
+            // depth ladders in isolated processes
+            let mut fams: Vec<usize> = (0..gen::NEST_FAMILIES).collect();
+            let mut rng = Rng::new(seed ^ 0xC05);
+            let n_mixed = if tier == Tier::Quick { 6 } else { 60 };
+            for _ in 0..n_mixed {
+                fams.push(1000 + rng.below(100_000));
+            }
+            let max_depth = if tier == Tier::Quick { 2048 } else { 8192 };
+            p_total::run_ladders(&fams, max_depth, &mut acc);
+            meta.assumptions = vec![
+                "CPU budget 10 s per call (two orders of magnitude above the slowest call of the pre-sweep); a wall-clock watchdog only yields inconclusive".into(),
+                "release profile (what users run)".into(),
+                "depth ladders run on an 8 MiB main-thread stack in a fresh process each".into(),
+            ];
+            run_fixed_repros(prop, &mut acc);
+            (meta, acc)
+        }
+        "C18" => {
+            let std = Std::load();
+            let mut meta = RunMeta::new(
+                prop,
+                tier.name(),
+                "exploration",
+                "hook counters (entries into convert_expr/convert_pattern/convert_markup_impl/convert_math) are read after every format call and compared with the number of syntax nodes (conversions ≤ 2·nodes + 8); corpus and generators at widths {0,40,80,120,2^40}; depth ladders 1..256 for 20 pure wrapper families and seed-chosen mixed nestings (a ladder stops at its first violation); secondary monitors: bytes allocated per call vs input+output size, CPU growth along ladders; distinct = input hash / ladder point; non-trivial = ≥ 20 syntax nodes",
+            );
+            let cfgs: Vec<Cfg> = [0usize, 40, 80, 120, fmtx::W_INF].iter().map(|&w| Cfg::new(w, 2, false)).collect();
+            let mut parts = vec![Part::new(std.base_list(), usize::MAX, usize::MAX, fixed())];
+            gens(&mut parts, 1500, 10_000);
+            parts.push(Part::new(pools::splice_pool(std.small_bases.clone(), std.frags.clone()), 3000, 72_678, fixed()));
+            parts.push(Part::new(pools::paren_pool(std.small_bases.clone()), 2000, 33_196, fixed()));
+            let (mut acc, pm) = workload::run_parts(&parts, tier, seed, |_, case, _, acc| p_perf::run_case(case, &cfgs, acc));
+            meta.pools = pm;
+            // ladders (in-process, big stacks)
+            let mut fams: Vec<usize> = (0..gen::NEST_FAMILIES).collect();
+            let mut rng = Rng::new(seed ^ 0xC18);
+            let n_mixed = if tier == Tier::Quick { 200 } else { 2000 };
+            for _ in 0..n_mixed {
+                fams.push(1000 + rng.below(1_000_000));
+            }
+            let widths: Vec<usize> = if tier == Tier::Quick { vec![0, 80, fmtx::W_INF] } else { vec![0, 40, 80, 120, fmtx::W_INF] };
+            use rayon::prelude::*;
+            let accs: Vec<Acc> = fams
+                .par_iter()
+                .map(|&f| {
+                    let mut a = Acc::new();
+                    let maxd = if f >= 1000 { 48 } else { 256 };
+                    p_perf::run_ladder(f, &widths, maxd, &mut a);
+                    a
+                })
+                .collect();
+            for a in accs {
+                acc.merge(a);
+            }
+            meta.assumptions = vec![
+                "the hook counts entries into the four conversion entry points; K = 2 is twice the maximum ratio observed on the pinned tree".into(),
+                "allocation and CPU monitors are secondary (bounds chosen ≥ 10× above the pre-sweep maxima)".into(),
+            ];
+            run_fixed_repros(prop, &mut acc);
+            (meta, acc)
+        }
+        "C17" => {
+            let std = Std::load();
+            let mut meta = RunMeta::new(
+                prop,
+                tier.name(),
+                "exploration",
+                "items = (text, cfg) from the corpus plus 'twin' documents with identical tree shape and span numbering (multiline flavor flipped, directive disabled); reference = one fresh process per item; histories: same item ×100, shuffled sequential orders, 2..64 threads each walking its own permutation from a barrier with seeded yields (plain calls, a shared Source object, cloned Typstyle values, interleaved range calls), separate processes with varied environment/cwd; every call is logged (thread, item, seq in/out) and overlapping pairs are counted; evaluation = one call; distinct = (text,cfg); non-trivial = item was re-formatted in a shuffled history after other documents",
+            );
+            let mut rng = Rng::new(seed ^ 0xC17);
+            let mut cases = std.snippets.clone();
+            cases.extend(std.adversarial.clone());
+            cases.extend(std.fixtures.iter().filter(|c| c.text.len() < 4000).cloned());
+            let (n, threads, rounds, envn): (usize, Vec<usize>, usize, usize) =
+                if tier == Tier::Quick { (120, vec![2, 4, 16], 3, 40) } else { (600, vec![2, 4, 16, 64], 6, 200) };
+            let items = p_pure::build_items(&cases, n, &mut rng);
+            let mut acc = Acc::new();
+            p_pure::run(&items, &threads, rounds, seed, envn, &mut acc);
+            meta.assumptions = vec![
+                "a call has no internal synchronisation points, so interleavings are obtained by thread scheduling (barrier start, seeded yields between calls); data races are decided by the ThreadSanitizer / Miri tier of the thorough command".into(),
+            ];
+            (meta, acc)
+        }
+        "C02" => crate::p_world::run(tier),
+        "C14" | "C15" | "C16" => crate::p_cli::run(prop, tier),
+        _ => panic!("unknown property {}", prop),
+    }
+}
+
+pub fn check(prop: &str, tier: Tier) -> i32 {
+    let (meta, acc) = run(prop, tier);
+    let floor = match (prop, tier) {
+        ("C17", _) => 500,
+        ("C14" | "C15" | "C16", _) => 100,
+        ("C02", _) => 200,
+        (_, Tier::Quick) => 2000,
+        _ => 20_000,
+    };
+    report::finish(meta, acc, floor)
 }
 
 /// Reproducers of *fixed* findings are part of every run of their property: a regression is a violation.
